@@ -248,11 +248,17 @@ func altTime(t time.Time) time.Time {
 	return t.Add(-time.Second)
 }
 
+// a timestamp outside the acceptance window but on the same UTC date as now (so that the
+// credential-date guard is not what rejects it): too old, or just after midnight too far ahead
 func pastOut(now time.Time, presign bool) time.Time {
+	t := now.Add(-6 * time.Minute)
 	if presign {
-		return now.Add(-16 * time.Minute) // X-Amz-Expires=900 plus a minute
+		t = now.Add(-16 * time.Minute) // X-Amz-Expires=900 plus a minute
 	}
-	return now.Add(-6 * time.Minute)
+	if t.UTC().Format("20060102") != now.UTC().Format("20060102") {
+		t = now.Add(16 * time.Minute)
+	}
+	return t
 }
 
 // apply performs mutation m (SigV4.tla Mutate) on the concrete request.
